@@ -41,6 +41,17 @@ fn oracle_exit(sc: &Scenario, inv: &Invocation, r: &RunResult, tag: &str, expect
         }
         "budget" => return viol("no-exit-after-stop-request", format!("kind=budget focus={}", tag), format!("[{}] step budget exhausted after the stop request", tag)),
         "main-returned" => {}
+        "killed-by-signal" => {
+            let left = running_left(r);
+            if !left.is_empty() {
+                return viol(
+                    "termination-signal-not-handled",
+                    format!("procs={} focus={}", left.iter().map(|s| s.split(':').next().unwrap_or("")).collect::<Vec<_>>().join(","), tag),
+                    format!("[{}] SIGTERM ended zinoma by its default action (no handler covers it): the shells it had spawned keep running: {:?}", tag, left),
+                );
+            }
+            return None;
+        }
         _ => return None,
     }
     let left = running_left(r);
